@@ -1,13 +1,15 @@
 #!/bin/sh
-# usage: benignall.sh [tier]  — applies every kept property-PRESERVING change (benign/*/patch.diff) to a scratch
+# usage: benignall.sh [tier] [name-substring]  — applies every kept property-PRESERVING change (benign/*/patch.diff) to a scratch
 # COPY of /repo (never /repo itself), runs the checks named in its meta.json and reports whether they stay silent.
 D=$(cd "$(dirname "$0")/.." && pwd)
 TIER=${1:-quick}
+ONLY=${2:-}
 W=$(mktemp -d /tmp/benignall.XXXXXX)
 trap 'rm -rf "$W"' EXIT
 mkdir -p "$W/ev"
 for s in "$D"/benign/*/; do
   n=$(basename "$s")
+  case "$n" in *"$ONLY"*) ;; *) continue ;; esac
   if grep -q '"status": "stale"' "$s/meta.json"; then echo "$n STALE (verified at its base commit; skipped)"; continue; fi
   rm -rf "$W/repo"; cp -r /repo "$W/repo"; rm -rf "$W/repo/.git"
   ids=$(python3 -c "import json;print(' '.join(json.load(open('$s/meta.json'))['checks_run']))")
